@@ -803,7 +803,7 @@ func (self *AofChannel) Push(dbId uint8, lock *Lock, commandType uint8, lockComm
 		aofLock.Count = unLockCommand.Count
 		aofLock.Rcount = unLockCommand.Rcount
 	}
-	if lockCommand.TimeoutFlag&protocol.TIMEOUT_FLAG_REQUIRE_ACKED != 0 {
+	if lockCommand.TimeoutFlag&protocol.TIMEOUT_FLAG_REQUIRE_ACKED != 0 && (commandType != protocol.COMMAND_LOCK || lock.locked > 0) {
 		aofLock.AofFlag |= AOF_FLAG_REQUIRE_ACKED
 		aofLock.lock = lock
 	} else {
